@@ -121,6 +121,9 @@ APlan2 ==
          /\ Len(body) <= MaxLenPairs
             \/ (Related(plan[1], e) /\ plan[1].mode \in SpecialModes /\ e.mode \in SpecialModes
                 /\ {plan[1].mode, e.mode} \cap {"block_alt", "empty_block_alt"} = {})
+            \* two block-alternates, one nested in the region of the other (the outer removal takes the inner with it)
+            \/ (Related(plan[1], e) /\ e.site # plan[1].site
+                /\ {plan[1].mode, e.mode} \subseteq {"block_alt", "empty_block_alt"})
          /\ <<e.site, e.mode>> # <<plan[1].site, plan[1].mode>> \/ e.mode \in {"before", "after", "semantic_after"}
          \* a replacement and a removal of the same instruction: the statements do not say which wins
          /\ ~(e.site = plan[1].site /\ {e.mode, plan[1].mode} \in {{"alternate", "empty_alternate"}, {"block_alt", "empty_block_alt"}})
